@@ -184,11 +184,13 @@ impl<'a> SectionsBuilder<'a> {
                 self.builder.quote();
                 self.set_lines_range(quote.line_range);
                 let id = self.builder.id();
-                SectionsBuilder::new(
+                let nested = SectionsBuilder::new(
                     &mut self.builder.graph().builder(id),
                     &quote.blocks,
                     &self.key,
-                );
+                )
+                .nodes_map();
+                self.nodes_map.extend(nested);
             }
             HorizontalRule(rule) => {
                 self.builder.horizontal_rule();
